@@ -419,3 +419,427 @@ Proof.
     destruct (new_chain_branch _ _ _ _ _ E) as [k' [-> L']]. rewrite length_new_chain in L'.
     constructor; [cbn; lia|constructor].
 Qed.
+
+(** ** one step of a thread preserves the invariants *)
+
+Ltac inv H := inversion H; subst; clear H.
+
+Lemma mk_thread_ok hl o p hs :
+  sorted_desc hs -> ids_lt hs hl -> pc_ok hl hs p -> thread_ok hl (TH o p hs).
+Proof. intros; split; [|split]; auto. Qed.
+
+Lemma sorted_push hl hs n m : sorted_desc hs -> waiting hl hs n -> sorted_desc ((n, m) :: hs).
+Proof. intros S [_ [I _]]. cbn. auto. Qed.
+
+Lemma ids_push hl hs n (m : lmode) : ids_lt hs hl -> n < hl -> ids_lt ((n, m) :: hs) hl.
+Proof. intros. constructor; auto. Qed.
+
+Lemma inside_push hl hs n m : waiting hl hs n -> inside ((n, m) :: hs) n m.
+Proof. intros W. split; [eexists; eauto|eapply rooted_push; eauto]. Qed.
+
+Lemma waiting_lt hl hs n : waiting hl hs n -> n < hl.
+Proof. intros [A _]; auto. Qed.
+
+(** a child read under the lock of the top-most held node can be locked next *)
+Lemma waiting_child h hs t0 m cs k c :
+  heap_ok h -> sorted_desc hs -> inside hs t0 m ->
+  get_cont h t0 = CBranch cs -> assoc k cs = Some c ->
+  waiting (List.length h) hs c.
+Proof.
+  intros [_ HO] S [[r ->] R] E A. specialize (HO _ _ E). rewrite Forall_forall in HO.
+  destruct (HO _ (assoc_In _ _ _ A)) as [L1 L2]. cbn in *.
+  split; [auto|]. split.
+  - constructor; [cbn; lia|]. destruct S as [I _]. eapply ids_lt_mono; [exact I|lia].
+  - split; [discriminate|exact R].
+Qed.
+
+Lemma waiting_pop hl t0 m r :
+  sorted_desc ((t0, m) :: r) -> ids_lt ((t0, m) :: r) hl -> rooted ((t0, m) :: r) ->
+  waiting hl r t0.
+Proof.
+  intros S I R. split; [inv I; auto|]. split; [destruct S; auto|]. split.
+  - intros ->. eapply rooted_single; eauto.
+  - eapply rooted_tail; eauto.
+Qed.
+
+Lemma frames_items_ok h hs t0 r0 c pre q :
+  heap_ok h -> hs = (t0, MR) :: r0 ->
+  Forall (fun it : qitem => t0 < fst (fst it) /\ fst (fst it) < List.length h)
+         (query_items c pre q) \/ True.
+Proof. auto. Qed.
+
+Lemma query_items_ok h t0 pre q :
+  heap_ok h ->
+  Forall (fun it : qitem => t0 < fst (fst it) /\ fst (fst it) < List.length h)
+         (query_items (get_cont h t0) pre q).
+Proof.
+  intros [_ HO]. unfold query_items.
+  destruct (get_cont h t0) as [|v|cs] eqn:E.
+  - destruct q as [|k r]; [constructor|]. destruct (is_glob k); constructor.
+  - destruct q as [|k r]; [constructor|]. destruct (is_glob k); constructor.
+  - specialize (HO _ _ E).
+    assert (G : forall r', Forall (fun it : qitem => t0 < fst (fst it) /\ fst (fst it) < List.length h)
+                            (map (fun kc : string * nat => (snd kc, pre ++ [fst kc], r')) cs)).
+    { intros r'. apply Forall_map. eapply Forall_impl; [|exact HO]. cbn. auto. }
+    destruct q as [|k r]; [apply G|]. destruct (is_glob k); [apply G|].
+    destruct (assoc k cs) as [c|] eqn:A; [|constructor].
+    rewrite Forall_forall in HO. specialize (HO _ (assoc_In _ _ _ A)). cbn in HO.
+    constructor; [cbn; auto|constructor].
+Qed.
+
+Local Arguments do_rel : simpl never.
+Local Arguments do_rlock : simpl never.
+Local Arguments do_req : simpl never.
+Local Arguments do_acq : simpl never.
+Local Arguments set_cont : simpl never.
+Local Arguments hdelete : simpl never.
+Local Arguments new_chain : simpl never.
+
+Lemma waiting_root hl : 0 < hl -> waiting hl [] 0.
+Proof. intros L. split; [auto|]. split; [constructor|]. split; [auto|left; auto]. Qed.
+
+Lemma tstep_ok b h t h' t' :
+  heap_ok h -> thread_ok (List.length h) t -> tstep_gen b h t = Some (h', t') ->
+  heap_ok h' /\ List.length h <= List.length h' /\ thread_ok (List.length h') t'.
+Proof.
+  intros HO [SO [IL PO]] ST. destruct t as [o p hs]. unfold tstep_gen in ST. cbn [tpc held top] in *.
+  destruct p; cbn -[hdelete hdel do_rel do_rlock do_req do_acq set_cont new_chain can_rlock can_lock] in ST;
+    try discriminate.
+  - (* PStart *) inv ST. cbn in PO. subst hs. split; [auto|]. split; [auto|].
+    destruct HO as [L0 _].
+    apply mk_thread_ok; [exact I|constructor|].
+    destruct o0; cbn [start_pc].
+    + apply waiting_root; auto.
+    + apply waiting_root; auto.
+    + split; [apply waiting_root; auto|constructor].
+    + reflexivity.
+    + destruct (Nat.ltb_spec n (List.length h')); cbn; auto.
+    + destruct (Nat.ltb_spec n (List.length h')); cbn; auto.
+  - (* PAddEnter *) cbn in PO. destruct p as [|k r]; cbn in ST.
+    + inv ST. rewrite length_do_req. split; [apply heap_ok_req; auto|]. split; [auto|].
+      apply mk_thread_ok; auto.
+    + destruct (can_rlock b h t); [|discriminate]. inv ST. rewrite length_do_rlock.
+      split; [apply heap_ok_rlock; auto|]. split; [auto|].
+      apply mk_thread_ok; [eapply sorted_push; eauto|eapply ids_push; eauto using waiting_lt|].
+      cbn. eapply inside_push; eauto.
+  - (* PAddTAcq *) cbn in PO. destruct (can_lock h t); [|discriminate]. inv ST. rewrite length_do_acq.
+    split; [apply heap_ok_acq; auto|]. split; [auto|].
+    apply mk_thread_ok; [eapply sorted_push; eauto|eapply ids_push; eauto using waiting_lt|].
+    cbn. eapply inside_push; eauto.
+  - (* PAddTCrit *) cbn in PO. inv ST. destruct PO as [[r ->] R].
+    destruct (get_cont h t); cbn.
+    + rewrite length_set_cont. split; [apply heap_ok_set_leaf; auto|]. split; [auto|].
+      apply mk_thread_ok; cbn; auto.
+    + rewrite length_set_cont. split; [apply heap_ok_set_leaf; auto|]. split; [auto|].
+      apply mk_thread_ok; cbn; auto.
+    + split; [auto|]. split; [auto|]. apply mk_thread_ok; cbn; auto.
+  - (* PAddIRead *) cbn in PO. inv ST.
+    destruct (get_cont h t) as [|v0|cs] eqn:E; cbn.
+    + split; [auto|]. split; [auto|]. apply mk_thread_ok; cbn; auto.
+    + split; [auto|]. split; [auto|]. apply mk_thread_ok; cbn; auto. split; [apply PO|auto].
+    + destruct (assoc k cs) as [c|] eqn:A; cbn.
+      * split; [auto|]. split; [auto|]. apply mk_thread_ok; cbn; auto. eapply waiting_child; eauto.
+      * split; [auto|]. split; [auto|]. apply mk_thread_ok; cbn; auto.
+  - (* PAddIRel *) cbn in PO. destruct PO as [[r0 ->] R]. inv ST. rewrite length_do_rel.
+    split; [apply heap_ok_rel; auto|]. split; [auto|].
+    apply mk_thread_ok; [destruct SO; auto|inv IL; auto|].
+    cbn. eapply waiting_pop; eauto.
+  - (* PAddUpg *) cbn in PO. inv ST. rewrite length_do_req. split; [apply heap_ok_req; auto|].
+    split; [auto|]. apply mk_thread_ok; cbn; auto.
+  - (* PAddUAcq *) cbn in PO. destruct (can_lock h t); [|discriminate]. inv ST. rewrite length_do_acq.
+    split; [apply heap_ok_acq; auto|]. split; [auto|].
+    apply mk_thread_ok; [eapply sorted_push; eauto|eapply ids_push; eauto using waiting_lt|].
+    cbn. eapply inside_push; eauto.
+  - (* PAddSlow *) cbn in PO. inv ST.
+    assert (Lt : t < List.length h).
+    { destruct PO as [[r0 ->] _]. inv IL. auto. }
+    destruct (get_cont h t) as [|v0|cs] eqn:E; cbn.
+    + pose proof (heap_ok_alloc h t [] k r v HO Lt (Forall_nil _)) as HA. cbn [app] in HA.
+      split; [exact HA|].
+      rewrite app_length, length_set_cont, length_new_chain.
+      split; [lia|]. apply mk_thread_ok; [auto|eapply ids_lt_mono; eauto; lia|].
+      cbn. destruct PO as [[r0 ->] R]. split; [lia|]. split; [eapply ids_lt_mono; eauto; lia|].
+      split; [discriminate|exact R].
+    + split; [auto|]. split; [auto|]. apply mk_thread_ok; cbn; auto. split; [apply PO|auto].
+    + destruct (assoc k cs) as [c|] eqn:A; cbn.
+      * split; [auto|]. split; [auto|]. apply mk_thread_ok; cbn; auto. eapply waiting_child; eauto.
+      * destruct HO as [L0 HO']. pose proof (HO' _ _ E) as F.
+        pose proof (heap_ok_alloc h t cs k r v (conj L0 HO') Lt F) as HA.
+        split; [exact HA|].
+        rewrite app_length, length_set_cont, length_new_chain.
+        split; [lia|]. apply mk_thread_ok; [auto|eapply ids_lt_mono; eauto; lia|].
+        cbn. destruct PO as [[r0 ->] R]. split; [lia|]. split; [eapply ids_lt_mono; eauto; lia|].
+        split; [discriminate|exact R].
+  - (* PGetEnter *) cbn in PO. destruct (can_rlock b h t); [|discriminate]. inv ST. rewrite length_do_rlock.
+    split; [apply heap_ok_rlock; auto|]. split; [auto|].
+    apply mk_thread_ok; [eapply sorted_push; eauto|eapply ids_push; eauto using waiting_lt|].
+    cbn. eapply inside_push; eauto.
+  - (* PGetRead *) cbn in PO. inv ST. destruct p as [|k r]; cbn.
+    + split; [auto|]. split; [auto|]. apply mk_thread_ok; cbn; auto. split; [apply PO|].
+      destruct PO as [[r0 ->] _]. inv IL. auto.
+    + destruct (get_cont h t) as [|v0|cs] eqn:E; cbn.
+      * split; [auto|]. split; [auto|]. apply mk_thread_ok; cbn; auto. split; [apply PO|auto].
+      * split; [auto|]. split; [auto|]. apply mk_thread_ok; cbn; auto. split; [apply PO|auto].
+      * destruct (assoc k cs) as [c|] eqn:A; cbn.
+        -- split; [auto|]. split; [auto|]. apply mk_thread_ok; cbn; auto. eapply waiting_child; eauto.
+        -- split; [auto|]. split; [auto|]. apply mk_thread_ok; cbn; auto. split; [apply PO|auto].
+  - (* PUnwind *) cbn in PO. destruct PO as [R K]. destruct hs as [|[n m] r].
+    + destruct k; cbn in ST; inv ST; (split; [auto|]; split; [auto|]; apply mk_thread_ok; cbn; auto).
+    + inv ST. rewrite length_do_rel. split; [apply heap_ok_rel; auto|]. split; [auto|].
+      apply mk_thread_ok; [destruct SO; auto|inv IL; auto|]. cbn. split; [eapply rooted_tail; eauto|auto].
+  - (* PHVal *) cbn in PO. destruct PO as [-> L]. destruct (can_rlock b h n); [|discriminate]. inv ST.
+    rewrite length_do_rlock. split; [apply heap_ok_rlock; auto|]. split; [auto|].
+    apply mk_thread_ok; [cbn; split; [constructor|auto]|constructor; [auto|constructor]|]. cbn. auto.
+  - (* PHValRead *) cbn in PO. subst hs. inv ST. split; [auto|]. split; [auto|].
+    apply mk_thread_ok; cbn; eauto.
+  - (* PHUpd *) cbn in PO. inv ST. rewrite length_do_req. split; [apply heap_ok_req; auto|].
+    split; [auto|]. apply mk_thread_ok; cbn; auto.
+  - (* PHUpdAcq *) cbn in PO. destruct PO as [-> L]. destruct (can_lock h n); [|discriminate]. inv ST.
+    rewrite length_do_acq. split; [apply heap_ok_acq; auto|]. split; [auto|].
+    apply mk_thread_ok; [cbn; split; [constructor|auto]|constructor; [auto|constructor]|]. cbn. auto.
+  - (* PHUpdWrite *) cbn in PO. subst hs. inv ST. rewrite length_set_cont.
+    split; [apply heap_ok_set_leaf; auto|]. split; [auto|]. apply mk_thread_ok; cbn; eauto.
+  - (* PHRel *) cbn in PO. destruct PO as [n [m ->]]. inv ST. rewrite length_do_rel.
+    split; [apply heap_ok_rel; auto|]. split; [auto|]. apply mk_thread_ok; cbn; auto. constructor.
+  - (* PDel *) cbn in PO. inv ST. rewrite length_do_req. split; [apply heap_ok_req; auto|].
+    split; [auto|]. apply mk_thread_ok; cbn; auto.
+  - (* PDelAcq *) cbn in PO. subst hs. destruct (can_lock h 0); [|discriminate]. inv ST.
+    rewrite length_do_acq. split; [apply heap_ok_acq; auto|]. split; [auto|].
+    destruct HO as [L0 _].
+    apply mk_thread_ok; [cbn; split; [constructor|auto]|constructor; [auto|constructor]|]. cbn. auto.
+  - (* PDelCrit *) cbn in PO. subst hs. pose proof (hdelete_shrinks h q) as Sh.
+    remember (hdelete h q) as hd. clear Heqhd. injection ST as <- <-.
+    destruct Sh as [Ln Sh'].
+    split; [eapply heap_ok_shrinks; [exact HO|split; [exact Ln|exact Sh']]|].
+    rewrite Ln. split; [auto|].
+    apply mk_thread_ok; auto. split; [right; exists MW; left; auto|exact I].
+  - (* PQEnter *) cbn in PO. destruct PO as [W F]. destruct (can_rlock b h t); [|discriminate]. inv ST.
+    rewrite length_do_rlock. split; [apply heap_ok_rlock; auto|]. split; [auto|].
+    apply mk_thread_ok; [eapply sorted_push; eauto|eapply ids_push; eauto using waiting_lt|].
+    cbn. split; [eapply inside_push; eauto|auto].
+  - (* PQRead *) cbn in PO. destruct PO as [[[r0 ->] R] F]. cbn in F.
+    destruct (query_visits (get_cont h t) q) eqn:QV; inv ST;
+      (split; [auto|]; split; [auto|]; apply mk_thread_ok; auto).
+    + split; [auto|]. constructor; [constructor|auto].
+    + split; [auto|]. constructor; [|auto]. apply query_items_ok; auto.
+  - (* PQVisit *) cbn in PO. inv ST. split; [auto|]. split; [auto|]. apply mk_thread_ok; cbn; auto.
+  - (* PQNext *) cbn in PO. destruct PO as [R F]. destruct fr as [|[|[[c pre] q] todo] fr].
+    + inv ST. inv F. split; [auto|]. split; [auto|]. apply mk_thread_ok; cbn; auto.
+    + inv F. destruct x as [n m]. inv ST. rewrite length_do_rel.
+      split; [apply heap_ok_rel; auto|]. split; [auto|].
+      apply mk_thread_ok; [destruct SO; auto|inv IL; auto|]. cbn. split; [eapply rooted_tail; eauto|auto].
+    + inv ST. inv F. inv H2. cbn in H1. destruct H1 as [L1 L2]. split; [auto|]. split; [auto|].
+      apply mk_thread_ok; auto. split.
+      * split; [auto|]. split.
+        -- constructor; [auto|]. destruct SO as [I _]. eapply ids_lt_mono; [exact I|lia].
+        -- split; [discriminate|auto].
+      * constructor; auto.
+Qed.
+
+(** ** what one step does to the mutexes and to the stepping thread *)
+
+Definition fresh_mu (h h' : heap) : Prop :=
+  forall n x, nth_error h' n = Some x -> List.length h <= n -> mu_of x = (0, false, 0).
+
+Definition not_acq (t : thread) : Prop := forall n, lockop_of t <> LAcq n.
+
+Local Arguments new_chain base !r v.
+
+Lemma new_chain_fresh r : forall base v i x,
+  nth_error (new_chain base r v) i = Some x -> mu_of x = (0, false, 0).
+Proof.
+  induction r as [|k r IH]; intros base v i x E.
+  - destruct i as [|[|i]]; cbn in E; try discriminate. inv E. reflexivity.
+  - destruct i as [|i]; cbn in E.
+    + inv E. reflexivity.
+    + eapply IH; eauto.
+Qed.
+
+Local Arguments new_chain : simpl never.
+
+Lemma alloc_mu h t0 c r v :
+  same_mu h (set_cont h t0 c ++ new_chain (List.length h) r v) /\
+  fresh_mu h (set_cont h t0 c ++ new_chain (List.length h) r v).
+Proof.
+  split.
+  - eapply same_mu_trans; [apply same_mu_set_cont|apply same_mu_app].
+  - intros n x E L. rewrite nth_error_app2 in E by (rewrite length_set_cont; auto).
+    eapply new_chain_fresh; eauto.
+Qed.
+
+Lemma fresh_mu_same_len h h' : List.length h' = List.length h -> fresh_mu h h'.
+Proof.
+  intros L n x E Ln. assert (n < List.length h') by (apply nth_error_Some; congruence). lia.
+Qed.
+
+Lemma local_step_mu h p :
+  same_mu h (fst (local_step h p)) /\ fresh_mu h (fst (local_step h p)).
+Proof.
+  assert (Id : same_mu h h /\ fresh_mu h h).
+  { split; [apply same_mu_refl|apply fresh_mu_same_len; auto]. }
+  assert (SC : forall n c, same_mu h (set_cont h n c) /\ fresh_mu h (set_cont h n c)).
+  { intros. split; [apply same_mu_set_cont|apply fresh_mu_same_len, length_set_cont]. }
+  destruct p; cbn -[hdelete set_cont new_chain]; auto.
+  - destruct (get_cont h t); cbn -[set_cont]; auto.
+  - destruct (get_cont h t) as [| |cs]; cbn; auto. destruct (assoc k cs); auto.
+  - destruct (get_cont h t) as [| |cs]; cbn -[set_cont new_chain]; auto.
+    + apply alloc_mu.
+    + destruct (assoc k cs); cbn -[set_cont new_chain]; auto. apply alloc_mu.
+  - destruct p as [|k r]; cbn; auto. destruct (get_cont h t) as [| |cs]; cbn; auto.
+    destruct (assoc k cs); auto.
+  - destruct k; auto.
+  - pose proof (hdelete_shrinks h q) as [L [M _]]. split; [exact M|apply fresh_mu_same_len; auto].
+  - destruct (query_visits (get_cont h t) q); auto.
+  - destruct fr as [|[|[[c pre0] q0] todo] fr]; auto.
+Qed.
+
+Lemma local_step_not_acq h p o hs :
+  lockop_of (TH o p hs) = LNone -> not_acq (TH o (snd (local_step h p)) hs).
+Proof.
+  intros LN n. unfold lockop_of in *. cbn [tpc held] in *.
+  destruct p; cbn -[Nat.ltb hdelete set_cont new_chain] in *; try discriminate;
+    repeat (first
+              [ match goal with |- context [start_pc ?a ?b] => destruct b end
+              | match goal with |- context [match get_cont ?a ?b with _ => _ end] => destruct (get_cont a b) end
+              | match goal with |- context [match assoc ?a ?b with _ => _ end] => destruct (assoc a b) end
+              | match goal with |- context [if Nat.ltb ?a ?b then _ else _] => destruct (Nat.ltb a b) end
+              | match goal with |- context [match query_visits ?a ?b with _ => _ end] => destruct (query_visits a b) end
+              | match goal with |- context [match query_items ?a ?b ?c with _ => _ end] => destruct (query_items a b c) end
+              | match goal with |- context [match ?x with _ => _ end] => is_var x; destruct x end ];
+            cbn -[Nat.ltb hdelete set_cont new_chain] in *; try discriminate).
+Qed.
+
+Lemma tstep_shape b h t h' t' :
+  tstep_gen b h t = Some (h', t') ->
+  match lockop_of t with
+  | LNone => h' = fst (local_step h (tpc t)) /\
+             t' = TH (top t) (snd (local_step h (tpc t))) (held t)
+  | LRLock n => can_rlock b h n = true /\ h' = do_rlock h n /\
+                t' = TH (top t) (after_lock (tpc t)) ((n, MR) :: held t)
+  | LReq n => h' = do_req h n /\ t' = TH (top t) (after_lock (tpc t)) (held t)
+  | LAcq n => can_lock h n = true /\ h' = do_acq h n /\
+              t' = TH (top t) (after_lock (tpc t)) ((n, MW) :: held t)
+  | LRel => exists n m hs, held t = (n, m) :: hs /\ h' = do_rel h n m /\
+                           t' = TH (top t) (after_lock (tpc t)) hs
+  end.
+Proof.
+  unfold tstep_gen. destruct (is_done (tpc t)); [discriminate|].
+  destruct (lockop_of t).
+  - intros E; inv E; auto.
+  - destruct (can_rlock b h n); [|discriminate]. intros E; inv E; auto.
+  - intros E; inv E; auto.
+  - destruct (can_lock h n); [|discriminate]. intros E; inv E; auto.
+  - destruct (held t) as [|[n m] hs]; [discriminate|]. intros E; inv E. eauto 8.
+Qed.
+
+Lemma after_lock_not_acq o p hs hs' :
+  (forall n, lockop_of (TH o p hs) <> LReq n) -> lockop_of (TH o p hs) <> LNone ->
+  not_acq (TH o (after_lock p) hs').
+Proof.
+  intros NR NN n. unfold lockop_of in *. cbn [tpc held] in *.
+  destruct p; cbn in *; try congruence; try discriminate;
+    repeat (match goal with
+            | |- context [match ?x with _ => _ end] => is_var x; destruct x
+            | H : context [match ?x with _ => _ end] |- _ => is_var x; destruct x
+            end; cbn in *; try congruence; try discriminate).
+  all: try (exfalso; eapply NR; reflexivity).
+Qed.
+
+Lemma after_lock_req o p hs hs' n :
+  lockop_of (TH o p hs) = LReq n -> lockop_of (TH o (after_lock p) hs') = LAcq n.
+Proof.
+  unfold lockop_of. cbn [tpc held].
+  destruct p; cbn; try discriminate;
+    repeat (match goal with
+            | |- context [match ?x with _ => _ end] => is_var x; destruct x
+            end; cbn; try discriminate); intros E; inv E; auto.
+Qed.
+
+(** ** lock accounting: the mutex fields count the threads *)
+
+Fixpoint cnt (n : nat) (m : lmode) (hs : list (nat * lmode)) : nat :=
+  match hs with
+  | [] => 0
+  | x :: r => (if Nat.eqb (fst x) n && lmode_eqb (snd x) m then 1 else 0) + cnt n m r
+  end.
+
+Definition pcnt (n : nat) (t : thread) : nat :=
+  match lockop_of t with
+  | LAcq a => if Nat.eqb a n then 1 else 0
+  | _ => 0
+  end.
+
+Definition tsum (f : thread -> nat) (ts : list thread) : nat :=
+  fold_right (fun t a => f t + a) 0 ts.
+
+Definition wbit (x : hnode) : nat := if wr x then 1 else 0.
+
+Definition acct (s : state) : Prop :=
+  forall n x, nth_error (hp s) n = Some x ->
+    rd x = tsum (fun t => cnt n MR (held t)) (thr s) /\
+    wbit x = tsum (fun t => cnt n MW (held t)) (thr s) /\
+    pw x = tsum (pcnt n) (thr s).
+
+Definition Inv (s : state) : Prop :=
+  heap_ok (hp s) /\ Forall (thread_ok (List.length (hp s))) (thr s) /\ acct s.
+
+Lemma tsum_set_nth f ts i t t' :
+  nth_error ts i = Some t -> tsum f (set_nth ts i t') + f t = tsum f ts + f t'.
+Proof.
+  unfold tsum.
+  revert i; induction ts as [|a ts IH]; intros [|i] E; cbn in *; try discriminate.
+  - inv E. lia.
+  - specialize (IH _ E). lia.
+Qed.
+
+Lemma tsum_zero f ts : Forall (fun t => f t = 0) ts -> tsum f ts = 0.
+Proof. induction 1; cbn; lia. Qed.
+
+Lemma tsum_ge f ts i t : nth_error ts i = Some t -> f t <= tsum f ts.
+Proof.
+  unfold tsum.
+  revert i; induction ts as [|a ts IH]; intros [|i] E; cbn in *; try discriminate.
+  - inv E. lia.
+  - specialize (IH _ E). lia.
+Qed.
+
+Lemma cnt_zero_lt hs hl n m : ids_lt hs hl -> hl <= n -> cnt n m hs = 0.
+Proof.
+  induction 1 as [|x r L _ IH]; intros Hn; cbn; [auto|].
+  destruct (Nat.eqb_spec (fst x) n); [lia|]. cbn. auto.
+Qed.
+
+Lemma lockop_target_lt hl t n :
+  thread_ok hl t -> (lockop_of t = LAcq n \/ lockop_of t = LReq n \/ lockop_of t = LRLock n) -> n < hl.
+Proof.
+  intros [_ [_ P]]. destruct t as [o p hs]. unfold lockop_of. cbn [tpc held] in *.
+  destruct p; cbn in *; intros [E|[E|E]]; try discriminate;
+    repeat (match goal with
+            | H : context [match ?x with _ => _ end] |- _ => is_var x; destruct x
+            end; cbn in *; try discriminate);
+    inv E;
+    repeat match goal with
+           | H : waiting _ _ _ |- _ => destruct H as [? _]
+           | H : _ /\ _ |- _ => destruct H
+           end; auto.
+Qed.
+
+Lemma pcnt_zero_lt hl t n : thread_ok hl t -> hl <= n -> pcnt n t = 0.
+Proof.
+  intros T L. unfold pcnt. destruct (lockop_of t) eqn:E; auto.
+  destruct (Nat.eqb_spec n0 n); auto. subst.
+  assert (n < hl) by (eapply lockop_target_lt; eauto). lia.
+Qed.
+
+Lemma Inv_init ops : Inv (init_state ops).
+Proof.
+  split; [|split].
+  - split; [cbn; lia|]. intros n cs E. destruct n as [|[|n]]; cbn in E; discriminate.
+  - cbn. apply Forall_forall. intros t Ht. apply in_map_iff in Ht. destruct Ht as [o [<- _]].
+    apply mk_thread_ok; cbn; auto. constructor.
+  - intros n x E. cbn in E. destruct n as [|[|n]]; cbn in E; try discriminate. inv E. cbn.
+    assert (Z : forall f, (forall o, f (TH o (PStart o) []) = 0) ->
+                          tsum f (map (fun o => TH o (PStart o) []) ops) = 0).
+    { intros f Hf. induction ops as [|o ops IH]; cbn; auto. rewrite Hf. auto. }
+    rewrite !Z; auto.
+Qed.
